@@ -132,7 +132,7 @@ def template_def(rng, prof):
         feat = "tpl_split_routes"
     elif k == 12:  # a failure path that only publishes (continue), beside the success path
         tasks = [T("t1", [tr(["continue"], fn("failed"), [["err", lit("w%d" % rng.randint(0, 9))]]), tr(["t2"], fn("succeeded"))]),
-                 T("t2", [tr(["continue"], fn("failed"), [["err", lit("w%d" % rng.randint(0, 9))]]), tr(["t3"], fn("succeeded"))]),
+                 T("t2", [tr(["continue"], fn("failed"), [["err2", lit("w%d" % rng.randint(0, 9))]]), tr(["t3"], fn("succeeded"))]),
                  T("t3")]
         feat = "tpl_failure_publish"
     elif k == 13:  # the same variable published twice with values that are equal but of different type
@@ -165,8 +165,8 @@ def template_def(rng, prof):
     if feat == "tpl_typed_republish":
         d["output"].append(["oflag", ctx("flag")])
     if feat == "tpl_failure_publish":
-        d["vars"].append(["err", lit(None)])
-        d["output"].append(["oerr", ctx("err")])
+        d["vars"] += [["err", lit(None)], ["err2", lit(None)]]
+        d["output"] += [["oerr", ctx("err")], ["oerr2", ctx("err2")]]
     if feat == "tpl_split_routes":
         d["output"] += [["opa", ctx("pa")], ["opb", ctx("pb")]]
     if feat == "tpl_publish_race":
